@@ -10,7 +10,8 @@
 //!   anything else                                          -> FAIL
 //! `--prop C08|C09` selects which observations are judged: C08 = fresh
 //! reader after Build / commit / drop, C09 = held readers (ReaderQuery,
-//! ReaderWalk) and fresh readers after an abandoned session.
+//! ReaderWalk), fresh readers after an abandoned session, and fresh readers
+//! right after a commit (against the published version as the model has it).
 #[path = "../zone.rs"]
 mod zone;
 
@@ -133,14 +134,16 @@ fn main() {
             let fresh = matches!(a.as_str(), "Build" | "CommitPushVersion" | "DropWriter");
             let judged = match prop.as_str() {
                 "C08" => matches!(a.as_str(), "Build" | "CommitPushVersion"),
-                _ => matches!(a.as_str(), "ReaderQuery" | "ReaderWalk" | "DropWriter"),
+                _ => matches!(a.as_str(), "ReaderQuery" | "ReaderWalk" | "DropWriter" | "Build" | "CommitPushVersion"),
             };
+            // C09 at a commit: the reference is the published version as the model has it
+            let chk_field = if prop != "C08" && matches!(a.as_str(), "Build" | "CommitPushVersion") { "chk9" } else { "chk" };
             if !judged || h.zone.is_none() {
                 continue;
             }
             let r = op["r"].as_str().unwrap_or("").to_string();
             let mut items: Vec<(Value, Value, Value, Value)> = vec![]; // (what, obs, exp, dev)
-            if let Some(chks) = step["chk"].as_array() {
+            if let Some(chks) = step[chk_field].as_array() {
                 for c in chks {
                     let qt = c["qt"].as_str().unwrap_or("");
                     let obs = catch_unwind(AssertUnwindSafe(|| {
